@@ -225,6 +225,10 @@ package arvados
 //@   # token are each unescaped exactly once; the path is their concatenation
 //@   ghost un string = ""
 //@   calls manifestUnescape#1: requires $0 == token
+//@   # a file token is position, length and NAME: split at the first two colons
+//@   # only (a name may contain colons)
+//@   calls strings.SplitN#2: requires $0 == token && $1 == ":" && $2 == 3
+//@   calls strings.SplitN#1: requires $0 == token && $1 == "+" && $2 == 3
 //@   calls manifestUnescape#2: requires $0 == toks[2]
 //@   calls manifestUnescape#2: set un = $r
 //@   calls dirnode.createFileAndParents#1: requires $0 == dirname + "/" + un
@@ -537,3 +541,10 @@ package arvados
 // Patterns the contracts above rely on (a change of the pattern is a change of
 // behaviour of every function that uses it).
 //@ lemma signedLocatorPattern property C07,C18: regexliteral(SignedLocatorRe) == `^([[:xdigit:]]{32})(\+[0-9]+)?((\+[B-Z][A-Za-z0-9@_-]*)*)(\+A([[:xdigit:]]{40})@([[:xdigit:]]{8}))((\+[B-Z][A-Za-z0-9@_-]*)*)$`
+
+// marshalManifest, empty directory: the marker line starts with the ESCAPED
+// stream name (the line must load back under the manifest grammar whatever
+// characters the directory's path contains); the root itself has no line.
+//@ func dirnode.marshalManifest property C09,C10,C17 safety -bounds,-nil,-nopanic,-makeslice
+//@   ensures old(len(dn.inodes)) == 0 && prefix != "." ==> result1 == nil && result0 == manifestEscape(prefix) + " d41d8cd98f00b204e9800998ecf8427e+0 0:0:\\056\n"
+//@   ensures old(len(dn.inodes)) == 0 && prefix == "." ==> result1 == nil && result0 == ""
